@@ -227,6 +227,11 @@ Proof. exact linecol_counts_chars. Qed.
 Theorem C12_span_wfb_ok : forall src sp, span_wfb src sp = true <-> span_wf src sp.
 Proof. exact span_wfb_ok. Qed.
 
+(* the correspondence run checks all spans of a source against one table of line/columns: the
+   same predicate *)
+Theorem C12_spans_wfb_ok : forall src sps, spans_wfb src sps = forallb (span_wfb src) sps.
+Proof. exact spans_wfb_ok. Qed.
+
 Theorem C12_valid_utf8b_ok : forall l, valid_utf8b l = true -> valid_utf8 l.
 Proof. exact valid_utf8b_ok. Qed.
 
